@@ -732,4 +732,76 @@ theorem proxyLoop_eq (ops : Ops) (h : Header) : ∀ (fails : Nat) (cur : Header)
     simp [List.replicate_succ]
 
 end
+
+/-! ### Caddyfile glue -/
+
+theorem expandRanges_mem (args : List Bytes) (r : Bytes) (h : r ∈ expandRanges args) :
+    r ∈ args ∨ (tokPrivateRanges ∈ args ∧ r ∈ Gen.privateRanges) := by
+  induction args with
+  | nil => simp [expandRanges] at h
+  | cons a rest ih =>
+    unfold expandRanges at h
+    split at h
+    · rename_i ha
+      rcases List.mem_append.mp h with h | h
+      · exact Or.inr ⟨by simp [ha], h⟩
+      · rcases ih h with h | ⟨h1, h2⟩
+        · exact Or.inl (List.mem_cons_of_mem _ h)
+        · exact Or.inr ⟨List.mem_cons_of_mem _ h1, h2⟩
+    · rcases List.mem_cons.mp h with h | h
+      · exact Or.inl (by simp [h])
+      · rcases ih h with h | ⟨h1, h2⟩
+        · exact Or.inl (List.mem_cons_of_mem _ h)
+        · exact Or.inr ⟨List.mem_cons_of_mem _ h1, h2⟩
+
+theorem addClientIPHeaders_eq : ∀ (l acc : List Bytes), acc.Nodup →
+    addClientIPHeaders acc l = if (acc ++ l).Nodup then some (acc ++ l) else none
+  | [], acc, hn => by simp [addClientIPHeaders, hn]
+  | h :: rest, acc, hn => by
+    unfold addClientIPHeaders
+    by_cases hc : acc.contains h = true
+    · have hm : h ∈ acc := by simpa using hc
+      have : ¬ (acc ++ h :: rest).Nodup := by
+        intro hnd
+        have := (List.nodup_append.mp hnd).2.2 h hm h (by simp)
+        exact this rfl
+      simp [this, hm]
+    · have hm : h ∉ acc := by simpa using hc
+      have hn' : (acc ++ [h]).Nodup := by
+        rw [List.nodup_append]
+        refine ⟨hn, by simp, ?_⟩
+        intro a ha b hb
+        simp at hb; subst hb
+        exact fun e => hm (e ▸ ha)
+      simp only [hc, Bool.false_eq_true, if_false]
+      rw [addClientIPHeaders_eq rest (acc ++ [h]) hn']
+      simp [List.append_assoc]
+
+theorem clientIPHeaderLines_eq : ∀ (ls : List (List Bytes)) (acc : List Bytes), acc.Nodup →
+    clientIPHeaderLines acc ls = if (acc ++ ls.flatten).Nodup then some (acc ++ ls.flatten) else none
+  | [], acc, hn => by simp [clientIPHeaderLines, hn]
+  | l :: ls, acc, hn => by
+    unfold clientIPHeaderLines
+    rw [addClientIPHeaders_eq l acc hn]
+    by_cases h1 : (acc ++ l).Nodup
+    · simp only [h1, if_true]
+      rw [clientIPHeaderLines_eq ls (acc ++ l) h1]
+      simp [List.append_assoc]
+    · have : ¬ (acc ++ (l :: ls).flatten).Nodup := by
+        intro hnd
+        apply h1
+        have hs : (acc ++ l).Sublist (acc ++ (l :: ls).flatten) := by
+          simp only [List.flatten_cons, ← List.append_assoc]
+          exact List.sublist_append_left _ _
+        exact hnd.sublist hs
+      have this' : ¬ (acc ++ (l ++ ls.flatten)).Nodup := by simpa using this
+      simp [h1, this']
+
+theorem lastLine_mem : ∀ (ls : List (List Bytes)) (l : List Bytes), lastLine ls = some l → l ∈ ls
+  | [], l, h => by simp [lastLine] at h
+  | [x], l, h => by simp [lastLine] at h; simp [h]
+  | x :: y :: ls, l, h => by
+    unfold lastLine at h
+    exact List.mem_cons_of_mem _ (lastLine_mem (y :: ls) l h)
+
 end CaddyModel.C10
